@@ -184,7 +184,7 @@ pub struct Probe {
     pub run: Box<dyn Fn() -> Result<(), Failure> + Send + Sync>,
 }
 
-pub trait Property: Sync {
+pub trait Property: Sync + Send {
     fn id(&self) -> &'static str;
     fn level(&self) -> &'static str {
         "exploration"
